@@ -567,6 +567,9 @@ func (fv *FuncVC) evalFuncCall0(call *ast.CallExpr, f *types.Func, st *State) []
 	}
 	// 2. extern with a spec
 	if ex := fv.w.Externs.Specs[full]; ex != nil {
+		if ex.Hof && !fv.hofArgsConfined(call) {
+			return fv.callUnknown(call, f, full, recv, args, st, false)
+		}
 		return fv.callExtern(call, f, ex, recv, args, st)
 	}
 	// 3. extern from a package declared pure
@@ -729,6 +732,10 @@ func (fv *FuncVC) callContract(call *ast.CallExpr, fi *FuncInfo, recv *Val, args
 		fv.havocLoc(st, loc)
 	}
 	fv.applyGhostSets(fc, st, fv.calleeScope(fi, pre, pre, bind, nil))
+	// a callee may allocate: the set of allocated references only grows (results may be fresh objects)
+	if !fc.Pure {
+		fv.growAlloc(st)
+	}
 	// results
 	var results []Val
 	resBind := map[string]Val{}
@@ -1097,4 +1104,96 @@ func straightLine(l []ast.Stmt) bool {
 	}
 	_, ok := l[len(l)-1].(*ast.ReturnStmt)
 	return ok
+}
+
+// hofArgsConfined: every function argument of the call is a literal under a contract without modifies clause
+// (so that its frame obligations show it writes nothing that existed before) which assigns none of the
+// variables it captures. A higher-order extern declared `hof` then has no heap effect at all.
+func (fv *FuncVC) hofArgsConfined(call *ast.CallExpr) bool {
+	for _, a := range call.Args {
+		if _, isFunc := fv.typeOf(a).Underlying().(*types.Signature); !isFunc {
+			continue
+		}
+		fl, ok := ast.Unparen(a).(*ast.FuncLit)
+		if !ok {
+			return false
+		}
+		k, n := 0, 0
+		ast.Inspect(fv.fi.Decl.Body, func(m ast.Node) bool {
+			if l, ok := m.(*ast.FuncLit); ok {
+				n++
+				if l == fl {
+					k = n
+				}
+			}
+			return true
+		})
+		base := fv.fi.Key
+		if i := strings.Index(base, "$lit"); i >= 0 {
+			base = base[:i]
+		}
+		cf := fv.w.Contracts[fv.fi.Pkg.PkgPath]
+		if k == 0 || cf == nil {
+			return false
+		}
+		c := cf.Funcs[fmt.Sprintf("%s$lit%d", base, k)]
+		if c == nil || len(c.Modifies) > 0 {
+			return false
+		}
+		// no assignment to a captured variable
+		declared := map[types.Object]bool{}
+		ast.Inspect(fl, func(m ast.Node) bool {
+			if id, ok := m.(*ast.Ident); ok {
+				if o := fv.info.Defs[id]; o != nil {
+					declared[o] = true
+				}
+			}
+			return true
+		})
+		confined := true
+		lhs := func(e ast.Expr) {
+			if id, ok := ast.Unparen(e).(*ast.Ident); ok {
+				if o := fv.info.ObjectOf(id); o != nil && !declared[o] && id.Name != "_" {
+					confined = false
+				}
+			}
+		}
+		ast.Inspect(fl.Body, func(m ast.Node) bool {
+			switch m := m.(type) {
+			case *ast.AssignStmt:
+				for _, l := range m.Lhs {
+					lhs(l)
+				}
+			case *ast.IncDecStmt:
+				lhs(m.X)
+			case *ast.RangeStmt:
+				if m.Tok == token.ASSIGN {
+					lhs(m.Key)
+					if m.Value != nil {
+						lhs(m.Value)
+					}
+				}
+			case *ast.UnaryExpr:
+				if m.Op == token.AND {
+					lhs(m.X) // address of a captured variable escapes
+				}
+			}
+			return true
+		})
+		if !confined {
+			return false
+		}
+		fv.usedExterns[fmt.Sprintf("hof: the function literal %s$lit%d writes nothing that existed before (its own frame obligations)", shortName(base), k)] = true
+	}
+	return true
+}
+
+// growAlloc: after a call the allocated set is a superset of what it was (no store record: growing the
+// allocated set is not a write to anything that existed).
+func (fv *FuncVC) growAlloc(st *State) {
+	oldAlloc := fv.getHeap(st, "alloc")
+	n := fv.th.freshConst("alloc", fv.heapSort["alloc"])
+	st.heaps["alloc"] = n
+	fv.addFact(st, "(not (select "+n+" nil))")
+	fv.addFact(st, fmt.Sprintf("(forall ((r Ref)) (! (=> (select %s r) (select %s r)) :pattern ((select %s r)) :pattern ((select %s r))))", oldAlloc, n, oldAlloc, n))
 }
